@@ -6,7 +6,7 @@ from .. import timespec
 
 ID = 'C08'
 MODULES = ['OFModel.Lifecycle', 'OFModel.TimeSpec']
-PROP_FILES = ['C08', 'TimeSpecLemmas', 'C08TimeSpec']
+PROP_FILES = ['C08', 'TimeSpecLemmas', 'C08TimeSpec', 'C08LastFault']
 RULE = ('scripted subclasses of the real Filter run by the real Filter.run(sig_stop=False) on the fake zmq network with one upstream and one '
         'downstream neighbour: one fault (raise | KeyboardInterrupt | exit() | exit(exc) incl. exit(reason, SystemExit(1)) | exit message clean/error | stop event) at every lifecycle point '
         '(constructor, init before/after Filter.init, MQ construction (3 ways), setup, recv/process/send of iteration 1..n, shutdown, '
